@@ -246,6 +246,61 @@ func validateSessionCase(ao int, p []int, s []int) {
 	}
 }
 
+func validateSequenceCase(ao int, p []int, subjects [][]int) {
+	attrs := make([]config.ProfileSubjectAttribute, len(p))
+	for i, x := range p {
+		name := "DC"
+		if x/2 < len(attrNames) {
+			name = attrNames[x/2]
+		}
+		attrs[i] = config.ProfileSubjectAttribute{Attribute: name, Optional: x%2 == 1}
+	}
+	m := fstest.MapFS{".": &fstest.MapFile{Mode: 0777 | fs.ModeDir}}
+	d := filesystem.NewFilesystemDatabase(filesystem.NewMapFs(m))
+	if err := d.Open(); err != nil {
+		return
+	}
+	if err := d.AddProfile(config.CertificateProfile{Name: "p", SubjectAttributes: config.ProfileSubjectAttributes{AllowOther: ao == 1, Attributes: attrs}}); err != nil {
+		fmt.Fprintf(out, "SELFFAIL validate-sequence: AddProfile: %v\n", err)
+		return
+	}
+	for k, s := range subjects {
+		parts := make([]string, len(s))
+		for i, t := range s {
+			parts[i] = attrNames[t] + "=v"
+		}
+		r := -1
+		func() {
+			defer func() {
+				if rec := recover(); rec != nil {
+					fmt.Fprintf(out, "SELFFAIL validate-sequence %d|%s|%s: panic %v\n", ao, join(p), join(s), rec)
+				}
+			}()
+			v, err := config.ParseConfig(strings.NewReader("version: 1\nsubject: " + strings.Join(parts, ", ") + "\nprofile: p\nkeyAlgorithm: P-256\n"))
+			if err != nil {
+				return
+			}
+			cc, ok := v.(*config.CertificateContent)
+			if !ok {
+				return
+			}
+			cc.Alias = fmt.Sprintf("e%d", k)
+			if _, err := db.AddAndSign(d, *cc, false); err != nil {
+				r = 0
+				if !strings.Contains(err.Error(), "validate") {
+					fmt.Fprintf(out, "NOTE validate-sequence %d|%s|%s: refused with another error: %v\n", ao, join(p), join(s), err)
+					r = -1
+				}
+				return
+			}
+			r = 1
+		}()
+		if r >= 0 {
+			fmt.Fprintf(out, "V %d|%s|%s|%d|1\n", ao, join(p), join(s), r)
+		}
+	}
+}
+
 func streamValidate() {
 	sl := 4
 	if thorough() {
@@ -284,6 +339,24 @@ func streamValidate() {
 		if i%100 == 0 {
 			validateSessionCase(ao, p, s)
 		}
+	}
+	// several entities judged one after the other in one open database under one profile: every verdict is the one of the
+	// profile as it was given (a rejection must not leave anything behind that changes the next verdict)
+	for k := 0; k < 60; k++ {
+		ao := rng.Intn(2)
+		p := make([]int, 1+rng.Intn(3))
+		for j := range p {
+			p[j] = rng.Intn(8)
+		}
+		var subjects [][]int
+		for n := 0; n < 5; n++ {
+			s := make([]int, 1+rng.Intn(3))
+			for j := range s {
+				s[j] = rng.Intn(5)
+			}
+			subjects = append(subjects, s)
+		}
+		validateSequenceCase(ao, p, subjects)
 	}
 	// short profiles through the session path as well
 	for _, ao := range []int{0, 1} {
